@@ -1,8 +1,11 @@
+mod blk;
 mod canister;
+mod hdr;
 mod ledger;
 mod out;
 mod rng;
 mod sync;
+mod tf;
 mod wd;
 mod world;
 
@@ -52,6 +55,9 @@ fn main() {
         "wd" => wd::run(&mut out, &ctx),
         "ledger" => ledger::run(&mut out, &ctx),
         "sync" => sync::run(&mut out, &ctx),
+        "hdr" => hdr::run(&mut out, &ctx),
+        "blk" => blk::run(&mut out, &ctx),
+        "tf" => tf::run(&mut out, &ctx),
         other => { eprintln!("unknown stream {}", other); std::process::exit(2); }
     }
     out.finish(&[("seed", seed.to_string()), ("stream", out::json_str(&stream))]);
